@@ -6,6 +6,7 @@ import (
 	"encoding/binary"
 	"encoding/json"
 	"fmt"
+	"golang.org/x/text/encoding/charmap"
 	"io"
 	"os"
 	"path/filepath"
@@ -28,7 +29,7 @@ func init() {
 		Rule: "explicit-state search of every encoder's drain machine x bounded-exhaustive objects: for each serialisable type all objects over small per-part domains (lengths {0,1,2,3,254,255} for one-byte-prefixed parts, {0,1,2,255,256,4096,65535} for field data, contents {0x00,'a',0xFF}, 0-3 fields) " +
 			"are built through the library's own constructors; state = (object incl. its private read cursor, bytes emitted), transition = Read with a buffer of size b for every b in 1..n+1 (n <= 96) or around every power-of-two boundary (larger n); " +
 			"every transition must return the next bytes of the independent reference encoding; the search runs to the fixed point, which decides all buffer-size sequences by induction and termination by absence of non-progress transitions; decoders are applied to the reference bytes (also with trailing bytes)",
-		Assumptions: []string{"objects are those the library's constructors/decoders can produce", "reference codec in harness/ref written from the protocol document"},
+		Assumptions:    []string{"objects are those the library's constructors/decoders can produce", "reference codec in harness/ref written from the protocol document"},
 		Run:            runC01,
 		Replay:         replayC01,
 		MinOutcomes:    10,
@@ -358,8 +359,20 @@ func c01RunInner(w *explore.Worker, c c01Case) {
 		segs := [][]string{{"a"}, {"a", "b"}, {"dir", "sub", "x.txt"}, {string(pat(255, ch))}, {"", "x"}, {"a b", "é"}, long17, long17[:16]}[a%8]
 		fh := hotline.NewFileHeader(strings.Join(segs, "/"), b%2 == 1)
 		want := ref.ItemHeader(b%2 == 1, segs...)
+		diskJoined := strings.Join(segs, "/")
 		// a folder-download item header: size, type, path (count + items); same layout as the upload item header
 		_ = want
+		// names are UTF-8 in the server's file tree and Mac Roman on the wire (a name that cannot be encoded is sent
+		// as it is); what arrives is decoded from Mac Roman
+		diskSegs := segs
+		segs = nil
+		var decoded []string
+		for _, s := range diskSegs {
+			wire := string(macRoman(s))
+			segs = append(segs, wire)
+			dec, _ := charmap.Macintosh.NewDecoder().String(wire)
+			decoded = append(decoded, dec)
+		}
 		var path []byte
 		path = binary.BigEndian.AppendUint16(path, uint16(len(segs)))
 		for _, s := range segs {
@@ -373,8 +386,8 @@ func c01RunInner(w *explore.Worker, c c01Case) {
 		if it, err := ref.DecodeFolderItem(hdr); err != nil || strings.Join(it.Path, "/") != strings.Join(segs, "/") {
 			fail("reference-decoder-disagrees", fmt.Sprint(err))
 		}
-		if !bytes.Equal(hotline.EncodeFilePath(strings.Join(segs, "/")), path) {
-			fail("EncodeFilePath", fmt.Sprintf("%x vs %x", hotline.EncodeFilePath(strings.Join(segs, "/")), path))
+		if !bytes.Equal(hotline.EncodeFilePath(diskJoined), path) {
+			fail("EncodeFilePath", fmt.Sprintf("%x vs %x", hotline.EncodeFilePath(diskJoined), path))
 		}
 		var fp hotline.FilePath
 		if _, err := fp.Write(path); err != nil || len(fp.Items) != len(segs) {
@@ -386,8 +399,8 @@ func c01RunInner(w *explore.Worker, c c01Case) {
 				}
 			}
 		}
-		if got := hotline.VerifFormattedPath([2]byte{0, byte(len(segs))}, path[2:]); len(segs) > 0 && segs[0] != "" && !strings.Contains(strings.Join(segs, "/"), "//") && strings.TrimPrefix(got, "/") != strings.Join(segs, "/") && a%6 != 4 {
-			fail("decode-folder-upload-path", fmt.Sprintf("FormattedPath %q for %q", got, segs))
+		if got := hotline.VerifFormattedPath([2]byte{0, byte(len(segs))}, path[2:]); len(segs) > 0 && segs[0] != "" && !strings.Contains(strings.Join(segs, "/"), "//") && strings.TrimPrefix(got, "/") != strings.Join(decoded, "/") && a%6 != 4 {
+			fail("decode-folder-upload-path", fmt.Sprintf("FormattedPath %q for wire %q, want %q", got, segs, decoded))
 		}
 	case "NewsArtList":
 		title, poster := pat(c01Short[a%6], ch), pat(c01Short[b%6], 'p')
